@@ -628,8 +628,8 @@ def check_corpus(ctx):
 def run(ctx):
     check_corpus(ctx)
     quick = ctx.tier == "quick"
-    structured(ctx, 3000 if quick else 60000)
-    free_form(ctx, 2000 if quick else 40000)
+    structured(ctx, 3000 if quick else 30000)
+    free_form(ctx, 2000 if quick else 20000)
 
 
 def replay(ctx, obj):
